@@ -119,12 +119,47 @@ def connectivity_fallback(chk):
     return run
 
 
+def param_distribution_fallback(chk):
+    """Bounded native companion of the two PopulationTemplate.apply@param-distribution contracts: the extracted statement run natively."""
+    cache = {}
+
+    def run():
+        if "r" in cache:
+            return cache["r"]
+        import types
+        from pyvc import native
+        from contracts import c16 as K
+        fails, n = [], 0
+        cs = [c_ for c_ in K.CONTRACTS if "@param-distribution" in c_["name"]]
+        for c_ in cs:
+            try:
+                f = native.region_function(c_)
+            except LookupError:
+                continue        # statement restructured: undecided for this stand-in, the population families below decide
+            for units in (1, 2, 3, 5, 8):
+                vals = ([[0.5 + 0.25 * k for k in range(units)], [-1.0 * k for k in range(units)]] if "per-unit" in c_["name"] else [0.75, -2.0, 0.0, 3])
+                for pv in vals:
+                    n += 1
+                    status, fl = native.check_call(c_, K.CLASSES, dict(self=types.SimpleNamespace(n=units), pval=pv), fn=f)
+                    if status == "violated":
+                        fails.append(dict(site="C16/" + c_["name"], clauses=fl[:2], features=dict(n=units), input=dict(n=units, pval=pv)))
+        chk.add_bounded("native-param-distribution", n, n,
+                        "the extracted statement of PopulationTemplate.apply that distributes one params entry over the units, run natively for "
+                        "n in {1,2,3,5,8}: per-unit lists (unit k receives entry k) and scalars (every unit receives it); distinct = (n, value)",
+                        [dict(n=3, pval=[0.5, 0.75, 1.0])])
+        cache["r"] = fails
+        return fails
+    return run
+
+
 def main():
     chk = Check("C16", "other")
     # deductive (small core): what a Connectivity carries into the compilation, and the kernel arithmetic applied to it (shared with C11)
     fb = connectivity_fallback(chk)
-    chk.run_contracts("contracts.c16", fallback={"*": fb})
-    for f in fb():
+    fbp = param_distribution_fallback(chk)
+    chk.run_contracts("contracts.c16", fallback={"PopulationTemplate.apply@param-distribution[per-unit values]": fbp,
+                                                 "PopulationTemplate.apply@param-distribution[scalar]": fbp, "*": fb})
+    for f in fb() + fbp():
         chk.report_failure(f)
     chk.run_contracts("contracts.c11", names=["NetworkGraph._add_matrix_delay@kernel-order"], fallback={"*": lambda: []})
     _cases = families(chk.tier, chk.seed)
